@@ -33,7 +33,8 @@ def run_suite(wt, tries=4):
     import re
     import time
     for k in range(tries):
-        rc, out = sh(f"{PY} -m pytest -q -p no:cacheprovider --no-cov src tests 2>&1 | tail -40", cwd=wt, env={"PYTHONPATH": f"{wt}/src"})
+        # own network namespace: other suites running concurrently cannot take port 8080
+        rc, out = sh(f"unshare -rn sh -c 'ip link set lo up; {PY} -m pytest -q -p no:cacheprovider --no-cov src tests 2>&1 | tail -40'", cwd=wt, env={"PYTHONPATH": f"{wt}/src"})
         failed = {l.split()[1] for l in out.splitlines() if l.startswith("FAILED ")}
         errors = {l.split()[1] for l in out.splitlines() if l.startswith("ERROR ")}
         summary = ([l for l in out.splitlines() if " passed" in l or " failed" in l] or [out[-200:]])[-1]
